@@ -126,7 +126,7 @@ fn check_bad_meta(c: &BadMeta) -> CaseResult {
         J::Null => "null",
         J::Bool(_) => "bool",
         J::I(_) | J::U(_) | J::Fs(..) | J::Ff(_) => "number",
-        J::S(_) => "string",
+        J::S(_) | J::Big(..) => "string",
         J::A(_) => "array",
         J::O(_) => "object",
     };
